@@ -94,6 +94,8 @@ def run_for(prop: str, repo: str, jobs: int = 16) -> T.Dict[str, T.Any]:
     sys.path.insert(0, VERIF) if VERIF not in sys.path else None
     cat = importlib.import_module("selftest.catalogue")
     entries = [e for e in cat.CATALOGUE if e["prop"] == prop]
+    # behaviour-preserving twins written for other properties must leave this check silent as well
+    entries += [dict(e, name=f"[{e['prop']}] {e['name']}") for e in cat.CATALOGUE if e["prop"] != prop and e["kind"] == "silent"]
     # independent seeded changes (sub-agents): the property's own check must fire
     import glob
     for meta in sorted(glob.glob(os.path.join(VERIF, "seeded", f"{prop}-*", "meta.json"))):
